@@ -54,7 +54,7 @@ func rulesC07(c *Ctx) {
 	}, map[string]string{
 		"(*Client).Connect:discover":  "a failed server/discover is the documented trigger of the fall-back to the initialize handshake (R-C07-3 pins when the fall-back is taken); it is not an error of Connect",
 		"(*Client).Connect:Unmarshal": "the -32022 error data is advisory: when it cannot be decoded the client falls back to initialize exactly as for any other discover failure",
-	}, false, 5, 10)
+	}, false, 8, 14)
 	supp := c.Obj(pM, "supportedProtocolVersions")
 	v2026 := c.Obj(pM, "protocolVersion20260728")
 	modern := constant.StringVal(v2026.(*types.Const).Val())
